@@ -38,6 +38,22 @@ check('C16', 'proof',
       'Lean 4 proof (induction over the tokenizer loop / trie paths) + model-vs-implementation correspondence',
       'DESIGN.md §3 C16')
 
+check('C05', 'proof',
+      'Lean theorems for every table, spelling and numeral: after add_dict_to_unit_map a spelling maps to the key of the '
+      'FIRST row that lists it (unitmap_lookup / unitmap_listed: a listed spelling maps to its own canonical unit unless an '
+      'earlier row lists it too), the parser\'s unit key for `number rest` / `prefix number` is exactly the stripped rest / '
+      'prefix (key_assembly_suffix / _prefix), the lookup then answers the mapped unit (parse_suffix_unit), and compound '
+      'amounts are exactly N + M/10^k (compound_value_exact, Decimal arithmetic of the repaired code). Tie: the model '
+      're-binds the tables of all 33 registered parser configurations and must reproduce their unit_map entry for entry; '
+      'real NumberWithUnitParser.parse vs parseUnit on every row; and EVERY (culture, type, unit, spelling) row (~12.5k) '
+      'goes through recognize_currency/dimension/temperature/age with the property oracle (unit, value, span, ISO code), '
+      'plus all main/fraction currency pairs with an English spelling.',
+      TB + 'Not modelled: the extractor (StringMatcher/number extractor/ambiguity filters) that decides which span reaches the '
+      'parser — covered only by the exhaustive table replay. 467 rows that the unchanged tree fails are listed one by one in '
+      'known_findings.json.',
+      'Lean 4 proof (first-writer-wins characterisation of bind_dictionary, loop invariants of the key assembly) + exhaustive table correspondence',
+      'DESIGN.md §3 C05')
+
 check('C18', 'translation_validation',
       'Exhaustive on every run: the repository\'s own resource generator is re-run on Patterns/*.yaml for every entry of the '
       'five resource-definitions.json and compared with the checked-in module definition by definition (source text and '
